@@ -63,17 +63,40 @@ func VerifC05_Chain() {
 	}
 	w.behav["b"] = &vBehav{codes: []int{0}}
 	w.behav["c"] = &vBehav{codes: []int{0}}
+	// optionally two bystanders that are running when the skip brings the project down: one
+	// with exit_on_end (a victim of that shutdown: its code must not become the project's) and
+	// one that is slow to die
+	confs := []types.ProcessConfig{a, b, c}
+	// (only where a fails after the start-up has registered every process: a shutdown that is
+	// triggered while Run() still registers processes is the known finding of C03)
+	withVictim := exitOnSkipped && (mode == 0 || mode == 3) && verifChooseK("bystanders", 2) == 1
+	if withVictim {
+		if mode == 0 {
+			w.behav["a"].latency = 1 // a exits once nothing else can happen
+		}
+		verifShape("with.exit_on_end.victim")
+		v := vConf("v", nil)
+		v.RestartPolicy.ExitOnEnd = true
+		s := vConf("s", nil)
+		w.behav["v"] = &vBehav{untilStop: []bool{true}}
+		w.behav["s"] = &vBehav{untilStop: []bool{true}, latency: 1}
+		confs = append(confs, v, s)
+	}
 	w.onStart = func(name string, attempt int) {
 		if name == "b" || name == "c" {
 			verifFail("dependent.launched")
 		}
 	}
-	r := vRunner(vProject(a, b, c), false)
+	r := vRunner(vProject(confs...), false)
 	runDone := make(chan error, 1)
 	go func() { runDone <- r.Run() }()
 	if mode == 3 {
 		go func() {
-			<-w.started
+			for n := range w.started { // the user stops a once its command runs
+				if n == "a" {
+					break
+				}
+			}
 			_ = r.StopProcess("a")
 		}()
 	}
